@@ -46,7 +46,11 @@ Inductive c17_case :=
 | CT (requested seen other : N) (last quiet : bool)
 | CO (failed unchanged : bool)
 | CF (drop_ms : N) (restored : bool)
-| CE (winches resizes others : N) (mode_and_restored : bool).
+| CE (winches resizes others : N) (mode_and_restored : bool)
+| CRO (opens : N) (each_restored : bool).
+    (* the same tty opened and released `opens` times in one process, its settings changed from outside before
+       each open: every release left the settings found at that open (the model has no state outside the
+       terminal object: `opened orig raw` saves what it finds) *)
     (* escape-sequence resize mode (the ioctl gives no pixel size, the terminal answers CSI 18 t / 14 t):
        every SIGWINCH is answered by at least one Resize event, nothing else shows up; not modelled *)
     (* dropped while the other side keeps typing and never answers the sync request: the wait of
@@ -287,6 +291,7 @@ Definition c17_check (c : c17_case) : bool * bool :=
   | CO failed unchanged => (failed, unchanged)
   | CF drop_ms restored => (true, restored && (drop_ms <=? 4000 + slack))
   | CE winches resizes others ok => (true, ok && (winches <=? resizes) && (others =? 0))
+  | CRO opens ok => (true, ok && (0 <? opens))
   end.
 
 Definition c17_report := report c17_check.
